@@ -65,6 +65,8 @@ DamageEvent ==
         /\ DamageSafe(curf, E.res)                 \* the property: an error, or exactly the original frame
         \* a string whose declared length disagrees with its data, or whose checksum does not match, is never accepted
         /\ (E.res.kind = "ok" => Decode(s).kind \notin {"mismatch", "badsum"})
+        \* the same when the damaged bytes are decoded through the stream entry point (which takes the first line)
+        /\ E.res_read.kind # "panic" /\ DamageSafe(curf, E.res_read)
     /\ UNCHANGED <<cur, curf>>
 
 \* arbitrary hex text with an inconsistent length field or checksum (not only single-character damage): never accepted
